@@ -652,6 +652,7 @@ func (p *c20) runAPI(c *verifsim.Chooser, st *Stats, render bool) *Outcome {
 		log("SetContext(sim, cancel at tick %d)", cancelAt)
 	}
 	flip := false
+	freshDump := map[bool]string{}
 	prepare := func() bool {
 		ok := true
 		for _, s := range sides {
@@ -666,6 +667,25 @@ func (p *c20) runAPI(c *verifsim.Chooser, st *Stats, render bool) *Outcome {
 			} else if err != nil {
 				o.violate("C20/api-model", "Prepare rejects probe script", "%s: %v\n%s", s.name, err, text)
 				ok = false
+			} else {
+				// the flags of THIS Prepare decide: the program must be the
+				// one a new evaluator gets for the same text and flags
+				if _, have := freshDump[opt]; !have {
+					f := evalfilter.New(text)
+					if e2, esc2 := doPrepare(f, opt); e2 == nil && esc2 == nil {
+						d, _, _ := doDump(f)
+						freshDump[opt] = normDump(d)
+					}
+				}
+				d, _, _ := doDump(s.e)
+				if want, have := freshDump[opt]; have && normDump(d) != want {
+					how := "with NoOptimize"
+					if opt {
+						how = "without NoOptimize"
+					}
+					o.violate("C20/no-optimize", "flags of an earlier Prepare persist", "%s: prepared %s (after earlier Prepare calls on the same evaluator) the program differs from the one a new evaluator gets for the same text and flags:\n%s\nscript:\n%s", s.name, how, firstDiff(want, normDump(d)), text)
+					ok = false
+				}
 			}
 		}
 		log("Prepare")
